@@ -119,8 +119,11 @@ func numsOf(subs []submission) []sexp.Node {
 			for _, p := range s.HTTP.Params {
 				numTokens(p[1], m, &order)
 			}
-		} else if s.WS.Payload != nil {
-			numTokens(*s.WS.Payload, m, &order)
+		} else {
+			numTokens(s.WS.Raw, m, &order)
+			if s.WS.Payload != nil {
+				numTokens(*s.WS.Payload, m, &order)
+			}
 		}
 	}
 	out := make([]sexp.Node, 0, len(order))
@@ -682,7 +685,9 @@ func main() {
 		}()
 		ids := func(idx int) func() string {
 			n := 0
-			return func() string { n++; return fmt.Sprintf("c%d-%d", idx, n) }
+			// every few ids carry characters that jsoniter's string encoder escapes in the answer frames
+			special := []string{"", "", "", " sp ", `"q"`, "<&>", "é\u2028", "a\\b", "tab\there", "\x01\x7f"}
+			return func() string { n++; return fmt.Sprintf("c%d-%d%s", idx, n, special[(idx+n)%len(special)]) }
 		}
 		cfgs := allConfigs()
 
